@@ -35,21 +35,26 @@ def endsBackslash (s : Str) : Bool := s.getLast? == some '\\'
 
 def isCloser (c : Char) : Bool := c == '"' || c == '>'
 
+/-- `[^">]*[">]` and `(.*)` after the opening delimiter `o` -/
+def matchIncludeBody (o : Char) (r : Str) : Option (Str × Str) :=
+  match r.dropWhile (fun c => !isCloser c) with
+  | cl :: rest => some (o :: r.takeWhile (fun c => !isCloser c) ++ [cl], rest)
+  | [] => none
+
+/-- `[ \t]*(["<]...` after the word `include` -/
+def matchIncludeArg (r : Str) : Option (Str × Str) :=
+  match r.dropWhile (fun c => c == ' ' || c == '\t') with
+  | o :: r' => if o == '"' || o == '<' then matchIncludeBody o r' else none
+  | [] => none
+
+/-- `\s*include...` after the `#` -/
+def matchIncludeWord (r : Str) : Option (Str × Str) :=
+  if "include".toList.isPrefixOf (dropSpaces r) then matchIncludeArg ((dropSpaces r).drop 7) else none
+
 /-- `PATTERN_INCLUDE.match(line)`: `\s*#\s*include[ \t]*(["<][^">]*[">])(.*)`; the two groups. -/
 def matchInclude (line : Str) : Option (Str × Str) :=
   match dropSpaces line with
-  | '#' :: r =>
-    let r := dropSpaces r
-    if "include".toList.isPrefixOf r then
-      match (r.drop 7).dropWhile (fun c => c == ' ' || c == '\t') with
-      | o :: r' =>
-        if o == '"' || o == '<' then
-          match r'.dropWhile (fun c => !isCloser c) with
-          | cl :: rest => some (o :: r'.takeWhile (fun c => !isCloser c) ++ [cl], rest)
-          | [] => none
-        else none
-      | [] => none
-    else none
+  | '#' :: r => matchIncludeWord r
   | _ => none
 
 /-- `PATTERN_PREPROCESSOR.match(line)`: `\s*#\s*(\w*)`; the word. -/
